@@ -488,7 +488,7 @@ func (vfs *MemFS) mkdirAll(path string, perm fs.FileMode) (again bool, err error
 	const op = "mkdir"
 
 	parent, child, pi, err := vfs.searchNode(path, slmEval)
-	if vfs.isNotExist(err) || err == vfs.err.TooManySymlinks {
+	if err != vfs.err.FileExists {
 		// path itself may be a symbolic link that leads nowhere : the name exists and is not a directory.
 		if _, lc, _, lerr := vfs.searchNode(path, slmLstat); lerr == vfs.err.FileExists {
 			if _, ok := lc.(*symlinkNode); ok {
